@@ -212,6 +212,27 @@ pub fn all_patterns(n: usize) -> Vec<Vec<bool>> {
 /// (both phases) for all a + b <= n.
 pub fn family_patterns(n: usize) -> Vec<Vec<bool>> {
     let mut out: BTreeSet<Vec<bool>> = BTreeSet::new();
+    if n > 70 {
+        // very long lists: a sparse set of (a, b) around the ends, the middle
+        // and exhaustion, plus full alternation
+        let len = n - 3;
+        let pts = [0, 1, 2, len / 2, len.saturating_sub(1), len, len + 1, len + 3];
+        for a in pts {
+            for b in pts {
+                if a + b <= n {
+                    let mut p1 = vec![true; a];
+                    p1.extend(vec![false; b]);
+                    out.insert(p1);
+                    let mut p2 = vec![false; b];
+                    p2.extend(vec![true; a]);
+                    out.insert(p2);
+                }
+            }
+        }
+        out.insert((0..n).map(|i| i % 2 == 0).collect());
+        out.insert((0..n).map(|i| i % 2 == 1).collect());
+        return out.into_iter().collect();
+    }
     for a in 0..=n {
         for b in 0..=(n - a) {
             let mut p1 = vec![true; a];
@@ -251,9 +272,21 @@ pub struct StateOpts {
 }
 
 /// Key ids used for lookups: the universe plus one id that is never stored.
-fn probe_ids(u: &Universe) -> Vec<u32> {
+fn probe_ids(ctx: &Ctx, obs: &Obs) -> Vec<u32> {
+    let u = ctx.u;
     let mut v: Vec<u32> = (0..u.nkeys as u32).collect();
-    v.push(u.nkeys as u32 + 1000);
+    v.push(60_000);
+    let mut held: Vec<u32> = obs.ids();
+    // long lists: the two ends, the middle and a stride in between
+    if held.len() > 48 {
+        let n = held.len();
+        let step = n / 24;
+        held = held.iter().enumerate().filter(|(i, _)| *i < 4 || *i >= n - 4 || *i == n / 2 || i % step == 0).map(|(_, x)| *x).collect();
+    }
+    v.extend(held);
+    v.extend(ctx.extra_ids.iter().copied());
+    v.sort();
+    v.dedup();
     v
 }
 
@@ -302,7 +335,7 @@ pub fn check_state(
         };
         st.rule("C04.lookup");
         st.rule("C19.readonly");
-        for id in probe_ids(u) {
+        for id in probe_ids(ctx, obs) {
             let exp = obs.entries.iter().find(|x| x.id == id);
             for borrowed in [false, true] {
                 let probe = TKey::new(id, u.key_heap(id));
